@@ -35,7 +35,7 @@ MANIFEST = {"technique": 'runtime monitoring: plain-dict reference model; buffer
 TIME_CAP = {"quick": 70, "thorough": 1500}
 
 SCALARS = [1, 2.5, "s", False, None, "é"]
-DICTS = [{"x": 1}, {"x": 2, "y": {"z": [1]}}, {}]
+DICTS = [{"x": 1}, {"x": 2, "y": {"z": [1]}}, {}, {"d": {"x": 3}, "w": 2}]  # the last one holds its own key again
 LISTS = [[1, 2], [], ["s", [1]]]
 SLOTS = {"a": SCALARS, "b": SCALARS, "c_key": SCALARS, "d": DICTS, "l": LISTS}
 TYPED_SLOTS = {"a": [1, 1.0, True, "1", None, {"x": 1}, [1]], "d": [{"x": 1}, {"x": 1.0}, None, [1], {"x": True}]}
@@ -189,6 +189,9 @@ def gen_cases(ctx):
             h = rng.randrange(nh)
             if mode in ("A", "S") and rng.random() < 0.08:
                 ops.append([t, h, [rng.choice(["remove_init", "rekey"])]])
+            elif mode in ("A", "B") and rng.random() < 0.03:
+                # a sub-document of this document is promoted to be the whole document
+                ops.append([t, h, ["reset_live_sub", "d"]])
             elif mode in ("A", "B") and rng.random() < 0.05:
                 # whole reset whose new value is a live document object: this document itself (through the same or
                 # another handle) or another job's / the project's document
@@ -377,9 +380,14 @@ def run_mode_A(ctx, case, stale=False):
                 loaded.pop((t, hh), None)
             continue
         live = None
+        sub = None
         if op[0] == "reset_live":
             live = ((t + op[1]) % D.ndocs, (h + op[2]) % D.nh)
             mcopy, ok, mret = copy.deepcopy(D.model[live[0]]), True, None
+        elif op[0] == "reset_live_sub":
+            sub = op[1]
+            ok = isinstance(D.model[t].get(sub), dict)
+            mcopy, mret = copy.deepcopy(D.model[t].get(sub)), None
         else:
             mcopy = copy.deepcopy(D.model[t])
             ok, mret = apply_model(mcopy, op)
@@ -394,6 +402,10 @@ def run_mode_A(ctx, case, stale=False):
                 ctx.monitor("reset_to_live_document")
                 loaded[live] = True
                 D.assign(t, h, D.doc(*live), alias=(op[1] + op[2]) % 2 == 0)
+                rret = None
+            elif sub:
+                ctx.monitor("reset_to_live_document")
+                D.assign(t, h, doc[sub], alias=len(mcopy) % 2 == 0)
                 rret = None
             elif op[0] == "reset" and len(op[1]) % 2 == 0:
                 D.assign(t, h, copy.deepcopy(op[1]), alias=len(op[1]) == 2)
@@ -523,9 +535,14 @@ def run_buffered(ctx, case, multi_handle):
                         elif r < 0.35 and stack:
                             leave()
                     live = None
+                    sub = None
                     if op[0] == "reset_live":
                         live = ((t + op[1]) % D.ndocs, ((h + op[2]) % nh) if multi_handle else 0)
                         mcopy, ok, mret = copy.deepcopy(D.model[live[0]]), True, None
+                    elif op[0] == "reset_live_sub":
+                        sub = op[1]
+                        ok = isinstance(D.model[t].get(sub), dict)
+                        mcopy, mret = copy.deepcopy(D.model[t].get(sub)), None
                     else:
                         mcopy = copy.deepcopy(D.model[t])
                         ok, mret = apply_model(mcopy, op)
@@ -535,6 +552,10 @@ def run_buffered(ctx, case, multi_handle):
                     if live:
                         ctx.monitor("reset_to_live_document")
                         D.assign(t, h, D.doc(*live), alias=(op[1] + op[2]) % 2 == 0)
+                        rret = None
+                    elif sub:
+                        ctx.monitor("reset_to_live_document")
+                        D.assign(t, h, doc[sub], alias=len(mcopy) % 2 == 0)
                         rret = None
                     elif op[0] == "reset" and len(op[1]) % 2 == 0:
                         D.assign(t, h, copy.deepcopy(op[1]), alias=len(op[1]) == 2)
